@@ -2046,7 +2046,13 @@ class Rule(metaclass=LogicalType):
                             continue
             else:
                 val = _val
-            result[key] = val
+            try:
+                result[key] = val
+            except Exception as e:
+                # converted key is not hashable
+                context.handle_error(exc.ParseError(
+                    item=f"{_key}<key>", value=_key, type=key_type, origin_exc=e
+                ))
         return result
 
     @classmethod
